@@ -64,7 +64,7 @@ def gen(run):
                 stmt = tpl.format(**fill)
                 dim_opts = [None]
                 if kind in "az":
-                    bounds = {1: ["3", "&H4", "0", "&H0"], 2: ["2,3", "2,0", "0,3"], 3: ["1,2,3", "4,0,&H0"]}[nd]
+                    bounds = {1: ["3", "&H4", "0", "&H0", "&H7FFF", "&H7FFE", "32767"], 2: ["2,3", "2,0", "0,3"], 3: ["1,2,3", "4,0,&H0"]}[nd]
                     dim_opts += bounds
                 elif kind == "s":
                     dim_opts += ["scalar"]
